@@ -15,6 +15,7 @@ fn main() {
         "diagnose" => diagnose(&sc),
         "line_index" => line_index(&sc),
         "config_load" => config_load(&sc),
+        "parse" => parse(&sc),
         _ => json!({"error": format!("unknown scenario kind {kind}")}),
     };
     println!("{}", out);
@@ -155,4 +156,19 @@ fn config_load(sc: &Value) -> Value {
     }
     let _ = std::fs::remove_dir_all(&root);
     json!({"panicked": !panics.is_empty(), "panics": panics})
+}
+
+
+/// texts: [string]; each is parsed with the default configuration; reports whether the syntax tree's text equals the input
+fn parse(sc: &Value) -> Value {
+    use emmylua_parser::{LuaParser, ParserConfig};
+    let mut outs = vec![];
+    for t in sc["texts"].as_array().cloned().unwrap_or_default() {
+        let Some(text) = t.as_str() else { continue };
+        let tree = LuaParser::parse(text, ParserConfig::default());
+        let back = tree.get_red_root().text().to_string();
+        outs.push(json!({"input": text, "lossless": back == text, "tree_len": back.len(), "input_len": text.len(), "errors": tree.get_errors().len()}));
+    }
+    let bad = outs.iter().any(|o| o["lossless"] == json!(false));
+    json!({"results": outs, "violates": bad})
 }
